@@ -56,5 +56,8 @@ def scenarios(n_max=3, cores=(1, 2), ncancel=1, time_limits=True, vias=("api",),
             out.append(dict(cores=c, tasks=[dict(deps=[], codes=(0,), payload=True), dict(deps=[0], codes=(0, 1))], ops=[("enq", 0), ("enq", 1)], via="api",
                             payloads={0: (b"x" * 70000, b"e"), 1: (b"o", b"")}))
             out.append(dict(cores=c, tasks=[dict(deps=[], codes=(0,), time_limit=5.0), dict(deps=[0], codes=(0,))], ops=[("enq", 0), ("enq", 1)], via="api", kill_race=True))
+            # the script left a command in its process group that ignores SIGTERM (e.g. `(trap '' TERM; exec tool) & wait`)
+            out.append(dict(cores=c, tasks=[dict(deps=[], codes=(0,), stubborn=True), dict(deps=[0], codes=(0,))], ops=[("enq", 0), ("enq", 1), ("cancel", 0)], via="api"))
+            out.append(dict(cores=c, tasks=[dict(deps=[], codes=(0,), stubborn=True, time_limit=5.0), dict(deps=[], codes=(0,))], ops=[("enq", 0), ("enq", 1)], via="api"))
         out.append(dict(cores=1, tasks=[dict(deps=[], codes=(0,), extra_deps=(77,)), dict(deps=[0], codes=(0,))], ops=[("enq", 0), ("enq", 1)], via="api"))
     return out
